@@ -199,6 +199,11 @@ def ledger_episode(ctx, props, chain=False, discrete=False, prebuilt=None):
                 # unique per step: the step index is encoded in the weights
                 a = np.array([rng.choice([0.0, rng.uniform(-0.4, 0.5)]) for _ in cs])
                 a = np.where(a != 0, a + 1e-6 * (k + 1), a)
+                if rng.random() < 0.12:
+                    # a target so small that the trade it asks for is below 1e-7 contracts (the broker's own
+                    # tolerance for positions): it is still a trade - executed, charged, recorded
+                    a[rng.randrange(len(cs))] = rng.choice([-1, 1]) * rng.uniform(1e-10, 1e-8)
+                    ctx.cat("target-asks-for-dust-trade")
             acts.append(a)
             mark = len(sink.log)
             o, r, done, info = env.step(a)
